@@ -107,9 +107,18 @@ def splitDoc : Nat → Doc → Doc × Doc
       else if p.text.length ≤ n then ((p :: (splitDoc (n - p.text.length) ps).1), (splitDoc (n - p.text.length) ps).2)
       else ([.raw (p.text.take n)], .raw (p.text.drop n) :: ps)
 
-/-- Vertica's hint splice on the finished text: `sql[:7] + hint + sql[6:]` -/
+/-- Vertica's hint after the statement's own keyword (`VerticaQueryBuilder._hinted`): the text of the keyword part is split at
+its first blank, `KEYWORD rest` → `KEYWORD /*+label(h)*/ rest` -/
 def verticaSplice (hint : Str) (d : Doc) : Doc :=
-  (splitDoc 7 d).1 ++ [.raw ("/*+label(".toList ++ hint ++ ")*/".toList)] ++ (splitDoc 6 d).2
+  let n := ((flatten d).takeWhile (· ≠ ' ')).length
+  (splitDoc n d).1 ++ [.raw (" /*+label(".toList ++ hint ++ ")*/".toList)] ++ (splitDoc n d).2
+
+def hinted (fl : QFlags) (d : Doc) : Doc :=
+  if fl.cls = .vertica then
+    match fl.hint with
+    | some h => verticaSplice h d
+    | none => d
+  else d
 
 def optDoc {α} (o : Option α) (f : α → Doc) : Doc := match o with | some a => f a | none => []
 
@@ -408,24 +417,24 @@ mutual
         if queryIsEmpty selects.isEmpty insertTable.isSome fl.deleteFrom updateTable.isSome values.isEmpty updates.isEmpty
         then []
         else if updateTable.isSome then
-          withDoc ++ kws (if fl.cls = .clickhouse then "ALTER TABLE " else "UPDATE ") :: renderOptSrc k updateTable ++
+          withDoc ++ hinted fl (kws (if fl.cls = .clickhouse then "ALTER TABLE " else "UPDATE ") :: renderOptSrc k updateTable) ++
             joinsDoc ++ kws (if fl.cls = .clickhouse then " UPDATE " else " SET ") ::
             joinDocs (K ",") (renderPairs { k with withNamespace := false } k updates) ++ fromDoc ++ whereDoc ++
             (match fl.limit with | some n => limitDoc fl.cls.fetchFamily n | none => [])
         else if !fl.deleteFrom && insertTable.isSome && !fl.selectInto && !values.isEmpty then
-          withDoc ++ insertHead fl ++ renderOptSrc k insertTable ++
+          withDoc ++ hinted fl (insertHead fl ++ renderOptSrc k insertTable) ++
             opt (!columns.isEmpty) (kws " (" :: joinDocs (K ",") (renderL { k with withNamespace := false } columns) ++ K ")") ++
             kws " VALUES (" :: joinDocs (K "),(") (renderRows { k with withAlias := true, subquery := true } values) ++ K ")"
         else
           let head : Doc :=
-            if fl.deleteFrom then K (if fl.cls = .clickhouse then "ALTER TABLE" else "DELETE")
+            if fl.deleteFrom then hinted fl (K (if fl.cls = .clickhouse then "ALTER TABLE" else "DELETE"))
             else if insertTable.isSome && !fl.selectInto then
-              withDoc ++ insertHead fl ++ renderOptSrc k insertTable ++
+              withDoc ++ hinted fl (insertHead fl ++ renderOptSrc k insertTable) ++
                 opt (!columns.isEmpty) (kws " (" :: joinDocs (K ",") (renderL { k with withNamespace := false } columns) ++ K ")") ++
                 kws " " :: selectDoc
             else if insertTable.isSome then
-              withDoc ++ selectDoc ++ kws " INTO " :: renderOptSrc { k with withAlias := false } insertTable
-            else withDoc ++ selectDoc
+              withDoc ++ hinted fl selectDoc ++ kws " INTO " :: renderOptSrc { k with withAlias := false } insertTable
+            else withDoc ++ hinted fl selectDoc
           let body := head ++ fromDoc ++
             opt (!usingSrcs.isEmpty) (kws " USING " ::
               joinDocs (K ",") (renderSrcL { k with withNamespace := false, subquery := true, withAlias := true } usingSrcs)) ++
@@ -469,8 +478,10 @@ mutual
          else core)
       else if fl.cls = .postgresql then core ++ conflictDoc ++ returningDoc
       else if fl.cls = .vertica then
+        -- (the hint is placed by `hinted` at the statement's keyword; the dispatch on it is kept so that the case
+        -- numbering of `render.mutual_induct`, which the whole-tree proofs refer to, does not move)
         (match fl.hint with
-         | some h => verticaSplice h core
+         | some _ => core
          | none => core)
       else core
 
